@@ -408,6 +408,76 @@ fn overflow_cases(cx: &mut Cx, rng: &mut Rng) {
     }
 }
 
+/// 0 * inf inside a product: one factor's box contains 0, the other factor overflows to inf (or is an infinite
+/// immediate); |p| is then clamped to [0, 0] by min(.., 0), and `not` turns the NaN of the point into 0.
+fn zero_times_inf_cases(cx: &mut Cx, rng: &mut Rng) {
+    use vharness::tapes::GOp;
+    for variant in 0..4 {
+        // slots: 0 = x, 1 = y, 2 = y*y, 3 = product, 4 = |product|, 5 = min(|product|, 0), 6 = not
+        let mut ssa = vec![GOp::new(0, "Output", -1, 6, 0, 0), GOp::new(0, "Output", -1, 3, 1, 0),
+            GOp::new(3, "Not", 6, 5, -1, 0), GOp::new(4, "Min", 5, 4, -1, bits(0.0)), GOp::new(3, "Abs", 4, 3, -1, 0)];
+        match variant {
+            0 => ssa.push(GOp::new(6, "Mul", 3, 0, 2, 0)),
+            1 => ssa.push(GOp::new(6, "Mul", 3, 2, 0, 0)),
+            2 => ssa.push(GOp::new(4, "Mul", 3, 0, -1, bits(f32::INFINITY))),
+            _ => ssa.push(GOp::new(4, "Mul", 3, 0, -1, bits(f32::NEG_INFINITY))),
+        }
+        if variant < 2 {
+            ssa.push(GOp::new(3, "Square", 2, 1, -1, 0));
+            ssa.push(GOp::new(1, "Input", 1, 1, -1, 0));
+        }
+        ssa.push(GOp::new(1, "Input", 0, 0, -1, 0));
+        let nvars = if variant < 2 { 2 } else { 1 };
+        let p = Prog { ssa, nvars };
+        for xb in [Interval::new(-1.0, 1.0), Interval::new(0.0, 2.0), Interval::new(-3.0, 0.0)] {
+            let mut bx = vec![xb];
+            if nvars == 2 {
+                bx.push(Interval::new(1.0e19, 1.0e20));
+            }
+            let mut pts = box_samples(rng, &bx, 6);
+            let mut z = vec![0.0f32];
+            if nvars == 2 { z.push(1.0e20); }
+            pts.push(z);
+            let (Ok(vmf), Ok(jf)) = (vm_fn::<255>(&p), jit_fn(&p)) else { continue };
+            let pf = |q: &[f32]| point_trace(&vmf, q).out;
+            e2e(cx, "vm-zeroinf", &vmf, &pf, 2, &bx, &pts, false, &p);
+            e2e(cx, "jit-zeroinf", &jf, &pf, 2, &bx, &pts, false, &p);
+        }
+    }
+}
+
+/// inf - inf inside a sum or difference: both operands overflow to infinity within the box, the interval bounds
+/// (lo - hi', hi - lo') are infinite but not NaN, the point value is; a comparison decided on the clamped range,
+/// c - c and `not` then make the difference visible.
+fn inf_minus_inf_cases(cx: &mut Cx, rng: &mut Rng) {
+    use vharness::tapes::GOp;
+    for variant in 0..4 {
+        // slots: 0 = y, 1 = z, 2 = y*y, 3 = z*z (or its negation in 8), 4 = sum / difference, 5 = min(.., -1),
+        //        6 = compare(0, 5), 7 = 6 - 6, 9 = not
+        let mut ssa = vec![GOp::new(0, "Output", -1, 9, 0, 0), GOp::new(0, "Output", -1, 4, 1, 0),
+            GOp::new(3, "Not", 9, 7, -1, 0), GOp::new(6, "Sub", 7, 6, 6, 0), GOp::new(5, "Compare", 6, 5, -1, bits(0.0)),
+            GOp::new(4, "Min", 5, 4, -1, bits(-1.0))];
+        match variant {
+            0 => ssa.push(GOp::new(6, "Sub", 4, 2, 3, 0)),
+            1 => ssa.push(GOp::new(6, "Sub", 4, 3, 2, 0)),
+            2 => { ssa.push(GOp::new(6, "Add", 4, 2, 8, 0)); ssa.push(GOp::new(3, "Neg", 8, 3, -1, 0)); }
+            _ => { ssa.push(GOp::new(6, "Add", 4, 8, 2, 0)); ssa.push(GOp::new(3, "Neg", 8, 3, -1, 0)); }
+        }
+        ssa.push(GOp::new(3, "Square", 3, 1, -1, 0));
+        ssa.push(GOp::new(3, "Square", 2, 0, -1, 0));
+        ssa.push(GOp::new(1, "Input", 1, 1, -1, 0));
+        ssa.push(GOp::new(1, "Input", 0, 0, -1, 0));
+        let p = Prog { ssa, nvars: 2 };
+        let bx = vec![Interval::new(1.0e19, 1.0e20), Interval::new(1.0e19, 1.0e20)];
+        let mut pts = box_samples(rng, &bx, 6);
+        pts.push(vec![1.0e20, 1.0e20]);
+        let (Ok(vmf), Ok(jf)) = (vm_fn::<255>(&p), jit_fn(&p)) else { continue };
+        let pf = |q: &[f32]| point_trace(&vmf, q).out;
+        e2e(cx, "vm-infinf", &vmf, &pf, 2, &bx, &pts, false, &p);
+        e2e(cx, "jit-infinf", &jf, &pf, 2, &bx, &pts, false, &p);
+    }
+}
+
 fn main() {
     let args: Vec<String> = std::env::args().collect();
     let quick = args[2] == "quick";
@@ -456,6 +526,8 @@ fn main() {
         class_cases(&mut cx, &args[4], &mut rng, if quick { 2 } else { 12 });
     }
     overflow_cases(&mut cx, &mut rng);
+    zero_times_inf_cases(&mut cx, &mut rng);
+    inf_minus_inf_cases(&mut cx, &mut rng);
     transformed::<VmFunction>(&mut cx, "vm", &mut rng, if quick { 300 } else { 4000 });
     transformed::<JitFunction>(&mut cx, "jit", &mut rng, if quick { 300 } else { 4000 });
     let n = cx.id;
